@@ -261,6 +261,7 @@ func lemmaCmpTrans(a, b, c Object) (ab, bc, ac int, eab, ebc, eac bool) {
 //@   modifies e.numReg, e.registers, map token.interning
 //@   trustframe
 //@   ensures  e.numReg == old(e.numReg) + 1 && result.Idx == old(e.numReg) && result.RefEnv == e
+//@   onpanic ensures e.numReg == old(e.numReg)
 //@   property C05 C07
 
 //@ func (*Environment).ReleaseRegister
@@ -268,6 +269,7 @@ func lemmaCmpTrans(a, b, c Object) (ab, bc, ac int, eab, ebc, eac bool) {
 //@   requires lifo:: register.Idx == e.numReg - 1
 //@   modifies e.numReg
 //@   ensures  e.numReg == old(e.numReg) - 1
+//@   onpanic ensures e.numReg == old(e.numReg)
 //@   property C05 C07
 
 // Escaping values are copied out of the register file: the copy is an Integer holding the register's current value.
